@@ -214,7 +214,22 @@ def _td_component(which: str):
 td_days = z3.Function("td_days", I, I)
 td_secs = z3.Function("td_secs", I, I)
 td_us = z3.Function("td_us", I, I)
-COMPUTED_ATTRS = {"timedelta": {k: _td_component(k) for k in ("days", "seconds", "microseconds")}}
+def token_missing(it) -> z3.ExprRef:
+    """contextvars.Token.MISSING: the marker `Token.old_value` holds when the variable had no value before the `set`."""
+    g = it.st.ghost
+    if "$token_missing" not in g:
+        g["$token_missing"] = it.st.sym_ref("Token.MISSING", "object")
+    return g["$token_missing"]
+
+
+def _token_old_value(it, tok):
+    used("T-CV")
+    st = it.st
+    return st.simp(z3.If(V.bval(st.get(tok, "$tok_old_set")), st.get(tok, "$tok_old_val"), token_missing(it)))
+
+
+COMPUTED_ATTRS = {"timedelta": {k: _td_component(k) for k in ("days", "seconds", "microseconds")},
+                  "Token": {"old_value": _token_old_value, "var": lambda it, tok: it.st.get(tok, "$tok_var")}}
 
 
 def _mro_names(ct: V.ClassTable, c: int) -> list[str]:
